@@ -931,6 +931,7 @@ func (s *c06site) outcome() ssa.Value {
 }
 
 func checkC06(c *Check) {
+	c06Extra(c)
 	p := c.P
 	var srvFns []*ssa.Function
 	for _, fn := range p.RepoFns {
@@ -1008,6 +1009,23 @@ func checkC06(c *Check) {
 			if st, ok := in.(*ssa.Store); ok && resolve(st.Val) == a.authID {
 				if fa, ok := st.Addr.(*ssa.FieldAddr); ok {
 					e.authID = structField(fa.X.Type(), fa.Field)
+				}
+			}
+			// the id handed to a helper that stores its parameter into a field of the handler
+			if call, ok := in.(*ssa.Call); ok {
+				if g := staticCallee(call); g != nil && p.IsRepoFn(g) {
+					for i, arg := range call.Call.Args {
+						if resolve(arg) != a.authID || i >= len(g.Params) {
+							continue
+						}
+						allInstrs(g, func(x ssa.Instruction) {
+							if st, ok := x.(*ssa.Store); ok && resolve(st.Val) == ssa.Value(g.Params[i]) {
+								if fa, ok := st.Addr.(*ssa.FieldAddr); ok && namedOf(fa.X.Type()) == a.H {
+									e.authID = structField(fa.X.Type(), fa.Field)
+								}
+							}
+						})
+					}
 				}
 			}
 		})
